@@ -24,7 +24,16 @@ inline constexpr struct hypot {
         if (etl::isnan(x) or etl::isnan(y)) {
             return etl::numeric_limits<Float>::quiet_NaN();
         }
-        return etl::sqrt(x * x + y * y);
+        // scaled by the larger magnitude: x * x + y * y overflows or underflows long before the result does
+        auto const ax = x < Float(0) ? -x : x;
+        auto const ay = y < Float(0) ? -y : y;
+        auto const hi = ax < ay ? ay : ax;
+        auto const lo = ax < ay ? ax : ay;
+        if (hi == Float(0)) {
+            return Float(0);
+        }
+        auto const r = lo / hi;
+        return hi * etl::sqrt(Float(1) + r * r);
     }
 
     template <typename Float>
@@ -36,7 +45,18 @@ inline constexpr struct hypot {
         if (etl::isnan(x) or etl::isnan(y) or etl::isnan(z)) {
             return etl::numeric_limits<Float>::quiet_NaN();
         }
-        return etl::sqrt(x * x + y * y + z * z);
+        auto const ax = x < Float(0) ? -x : x;
+        auto const ay = y < Float(0) ? -y : y;
+        auto const az = z < Float(0) ? -z : z;
+        auto const m  = ax < ay ? ay : ax;
+        auto const hi = m < az ? az : m;
+        if (hi == Float(0)) {
+            return Float(0);
+        }
+        auto const rx = ax / hi;
+        auto const ry = ay / hi;
+        auto const rz = az / hi;
+        return hi * etl::sqrt(rx * rx + ry * ry + rz * rz);
     }
 
 } hypot;
